@@ -27,7 +27,10 @@ INVARIANT RoundTrip
 INVARIANT Conservation
 CHECK_DEADLOCK FALSE
 """
-TRACE_CFG = "SPECIFICATION TraceSpec\nCONSTANTS\n  Files = {}\nINVARIANT Accepted\nCHECK_DEADLOCK FALSE\n"
+TRACE_CFG = "SPECIFICATION TraceSpec\nCONSTANTS\n  Files = {}\n  SkipClauses = %s\nINVARIANT Accepted\nCHECK_DEADLOCK FALSE\n"
+C15_CLAUSES = {'connectivity_test_answers', 'molecule_name', 'atoms_in_file_order', 'bond_graph', 'bonds_symmetric', 'atom_count',
+               'connected_iff_one_component', 'copy_equal', 'copy_independent'}
+C16_CLAUSES = {'header_lines', 'section_lines', 'section_names_in_order_of_first_appearance'}
 
 
 # ---------------------------------------------------------------------------- rendering
@@ -448,7 +451,8 @@ def check(run, props):
             for line in fh:
                 t = json.loads(line)
                 traces[t['tid']] = t
-    verdicts = validate_batches('Trace_Itp', TRACE_CFG, partfiles, run.scratch, timeout=900 if run.quick else 3000, run=run, heap='6g')
+    skip = C16_CLAUSES if props == {'C15'} else (C15_CLAUSES if props == {'C16'} else set())
+    verdicts = validate_batches('Trace_Itp', TRACE_CFG % ('{' + ', '.join('"%s"' % c for c in sorted(skip)) + '}'), partfiles, run.scratch, timeout=900 if run.quick else 3000, run=run, heap='6g')
     c15_clauses = {'connectivity_test_answers', 'molecule_name', 'atoms_in_file_order', 'bond_graph', 'bonds_symmetric', 'atom_count',
                    'connected_iff_one_component', 'copy_equal', 'copy_independent'}
     kinds = {}
